@@ -182,6 +182,12 @@ class OksCaller:
         return np.stack(cols, axis=1)
 
 
+def same(a, b, tol):
+    """Element-wise |a-b| <= tol, NaN == NaN (a NaN on a defined row is reported by the range clause)."""
+    a, b = np.asarray(a, dtype=np.float64), np.asarray(b, dtype=np.float64)
+    return bool(((np.abs(a - b) <= tol) | (np.isnan(a) & np.isnan(b))).all())
+
+
 def evaluate_oks(case):
     from sleap_nn.evaluation import compute_instance_area
 
@@ -272,7 +278,7 @@ def evaluate_oks(case):
         pr2 = pr.copy()
         pr2[:, miss_gt[i]] = alt[:, miss_gt[i]]
         M2 = call(gt, pr2, stddev, scale)
-        if M2 is not runner.FAILED and not (np.abs(M2[i] - M[i]) <= 1e-12).all():
+        if M2 is not runner.FAILED and not same(M2[i], M[i], 1e-12):
             res.fail("oks:gt-missing-not-ignored", f"row {i}: {M[i].tolist()} -> {M2[i].tolist()} after changing predictions at GT-missing nodes")
         res.cls("oks:law=gt-missing-ignored")
 
@@ -282,7 +288,7 @@ def evaluate_oks(case):
         pr3 = pr.copy()
         pr3[miss_pr] = 1e9
         M3 = call(gt, pr3, stddev, scale)
-        if M3 is not runner.FAILED and valid and not (np.abs(M3[valid] - Mv) <= 1e-9).all():
+        if M3 is not runner.FAILED and valid and not same(M3[valid], Mv, 1e-9):
             res.fail("oks:pr-missing-not-a-miss", f"NaN prediction {Mv.tolist()} vs far prediction {M3[valid].tolist()}")
         res.cls("oks:law=nan-equals-far")
 
@@ -313,7 +319,7 @@ def evaluate_oks(case):
     if valid and (case["exact"] or (area_ok and norm_min >= 1e-4)):
         M4 = call(gt + shift, pr + shift, stddev, scale)
         tol = 1e-12 if case["exact"] else 1e-9
-        if M4 is not runner.FAILED and not (np.abs(M4[valid] - Mv) <= tol).all():
+        if M4 is not runner.FAILED and not same(M4[valid], Mv, tol):
             res.fail("oks:translation", f"shift {shift.tolist()}: {Mv.tolist()} -> {M4[valid].tolist()}")
         res.cls("oks:law=translation" + (":exact" if case["exact"] else ":float"))
 
@@ -324,8 +330,7 @@ def evaluate_oks(case):
         M5 = call(gt[P], pr[Q], stddev, sc_p)
         if M5 is not runner.FAILED:
             want = M[P][:, Q]
-            okm = (np.abs(M5 - want) <= 1e-12) | (np.isnan(M5) & np.isnan(want))
-            if not okm.all():
+            if not same(M5, want, 1e-12):
                 res.fail("oks:permutation", f"perm_gt={P} perm_pr={Q}: expected {want.tolist()} got {M5.tolist()}")
         res.cls("oks:law=permutation")
 
@@ -865,25 +870,25 @@ def parts(tier):
             name="oks",
             evaluate=evaluate_oks,
             strategy=oks_strategy,
-            budget={"quick": 1200, "thorough": 30000},
+            budget={"quick": 1200, "thorough": 60000},
             shards={"quick": 1, "thorough": 16},
-            min_nontrivial={"quick": 150, "thorough": 4000},
+            min_nontrivial={"quick": 150, "thorough": 8000},
         ),
         Part(
             name="match",
             evaluate=evaluate_match,
             strategy=match_strategy,
-            budget={"quick": 700, "thorough": 14000},
+            budget={"quick": 700, "thorough": 30000},
             shards={"quick": 1, "thorough": 16},
-            min_nontrivial={"quick": 80, "thorough": 1500},
+            min_nontrivial={"quick": 70, "thorough": 3000},
         ),
         Part(
             name="helpers",
             evaluate=evaluate_helpers,
             strategy=helpers_strategy,
-            budget={"quick": 900, "thorough": 20000},
+            budget={"quick": 900, "thorough": 40000},
             shards={"quick": 1, "thorough": 16},
-            min_nontrivial={"quick": 100, "thorough": 2500},
+            min_nontrivial={"quick": 120, "thorough": 6000},
         ),
     ]
 
